@@ -204,6 +204,27 @@ pub fn check(case: &Case, obs: &Obs) -> CheckResult {
     }
     ensure!(base.calls == expect_calls(case, k), "call-order", "{txt:?}: successful message ran {:?}, expected {:?}", base.calls, expect_calls(case, k));
     ensure!(base.errors.is_empty(), "hook-on-success", "{txt:?}: the error hook was called {} times for a successful message", base.errors.len());
+    // ... also when the interface says a previous response is still unread (mav) and hands over the buffer
+    // that still holds it, a fresh one, or one context for two messages in a row: the hook stays silent, every
+    // handler runs once (what becomes of the old bytes is not claimed)
+    for (mav, prefill) in [(true, false), (false, true), (true, true)] {
+        let mut dev = LogDev::with_plan(case.plans.clone());
+        let mut ctx = Context::default();
+        ctx.mav = mav;
+        let mut resp: Vec<u8> = if prefill { b"1;\"previous response\"\n".to_vec() } else { Vec::new() };
+        let first = FIXTREE.run(&r.bytes, &mut dev, &mut ctx, &mut resp);
+        // (the recording device is scripted per message: a second one for the second run, same context and buffer)
+        let mut dev2 = LogDev::with_plan(case.plans.clone());
+        let second = FIXTREE.run(&r.bytes, &mut dev2, &mut ctx, &mut resp);
+        runs += 2;
+        let calls: Vec<(usize, bool)> = dev.calls.iter().chain(dev2.calls.iter()).map(|c| (c.leaf, c.query)).collect();
+        dev.errors.extend(dev2.errors.iter().copied());
+        let twice: Vec<(usize, bool)> = expect_calls(case, k).into_iter().chain(expect_calls(case, k)).collect();
+        ensure!(first.is_ok() && second.is_ok(), "base-failed", "{txt:?} (mav = {mav}, buffer {}): run twice on one context gives {:?} / {:?}", if prefill { "holding an unread response" } else { "empty" }, first.map_err(|e| e.get_code()), second.map_err(|e| e.get_code()));
+        ensure!(dev.errors.is_empty(), "hook-on-success", "{txt:?} (mav = {mav}, buffer {}): the error hook was called with {:?} although both runs succeeded", if prefill { "holding an unread response" } else { "empty" }, dev.errors.iter().map(|e| e.get_code()).collect::<Vec<_>>());
+        ensure!(calls == twice, "call-order", "{txt:?} (mav = {mav}): two runs invoked {calls:?}, expected {twice:?}");
+        ensure!(ctx.mav == mav, "context-written", "{txt:?}: the library changed Context::mav from {mav} to {}", ctx.mav);
+    }
     let full_len = expected_response(&case.msg, &case.plans).len();
     ensure!(base.resp_len == full_len, "harness-response-length", "response length {} vs expected {}", base.resp_len, full_len);
 
